@@ -30,6 +30,71 @@ bool_ = _np.bool_
 _SC0 = SC(ZERO)
 _SC1 = SC(ONE)
 
+# ---- element kinds (a coarse model of JAX dtypes) -----------------------------------------------------------
+# 'b' < 'i' < 'f' < 'c'; None = not tracked (treated as complex: no narrowing cast is ever applied to it).  What the
+# model is for: JAX silently DROPS the imaginary part when a complex value is written into / accumulated in / cast to a
+# real array (x.at[i].set(z), einsum(..., preferred_element_type=float), astype(float)); the shim does the same.
+_ORDER = {"b": 0, "i": 1, "f": 2, "c": 3}
+
+
+def _kind_from_dtype(dt):
+    if dt is None:
+        return None
+    try:
+        k = _np.dtype(dt).kind
+    except TypeError:
+        return None
+    return {"b": "b", "i": "i", "u": "i", "f": "f", "c": "c"}.get(k)
+
+
+def _kind_of(x):
+    if isinstance(x, ndarray):
+        return x._dt
+    if isinstance(x, (bool, _np.bool_, SymBool)):
+        return "b"
+    if isinstance(x, (int, _np.integer)):
+        return "i"
+    if isinstance(x, (float, _np.floating)):
+        return "f"
+    if isinstance(x, (complex, _np.complexfloating)):
+        return "c"
+    if isinstance(x, SC):
+        return "c" if x.im.t else "f"
+    if isinstance(x, (list, tuple)):
+        if not x:
+            return "f"
+        return _prom(*[_kind_of(el) for el in x])
+    if isinstance(x, _np.ndarray):
+        if x.dtype == object:
+            return _prom(*[_kind_of(el) for el in x.flatten()]) if x.size else "f"
+        return _kind_from_dtype(x.dtype)
+    return None
+
+
+def _prom(*ks):
+    best = None
+    for k in ks:
+        if k is None:
+            return None
+        if best is None or _ORDER[k] > _ORDER[best]:
+            best = k
+    return best
+
+
+def _floatish(k):
+    return "f" if k in ("b", "i") else k
+
+
+def _narrow(v, k):
+    """object array v cast to kind k: complex -> real drops the imaginary part (as JAX does, with a warning only)"""
+    if k in ("f", "i", "b") and isinstance(v, _np.ndarray):
+        out = _np.empty(v.shape, dtype=object)
+        for idx in _np.ndindex(v.shape):
+            x = v[idx]
+            out[idx] = x.real if isinstance(x, SC) and x.im.t else x
+        return out
+    return v
+
 
 def _lift(x):
     if isinstance(x, (SC, SymBool)):
@@ -110,17 +175,21 @@ class _AtSetter:
         v = self.arr._v.copy()
         idx = self.idx
         idx = tuple(_fix_index(i) for i in idx) if isinstance(idx, tuple) else _fix_index(idx)
+        k = self.arr._dt  # the result keeps the dtype of the array written to: complex values lose their imaginary part
         if isinstance(val, ndarray):
-            v[idx] = val._v
+            v[idx] = _narrow(val._v, k)
         elif isinstance(val, _np.ndarray):
-            v[idx] = _obj(val)
+            v[idx] = _narrow(_obj(val), k)
         else:
+            x = _lift(val)
+            if k in ("f", "i", "b") and isinstance(x, SC) and x.im.t:
+                x = x.real
             tgt = v[idx]
             if isinstance(tgt, _np.ndarray):
-                tgt.fill(_lift(val))
+                tgt.fill(x)
             else:
-                v[idx] = _lift(val)
-        return ndarray(v)
+                v[idx] = x
+        return ndarray(v, k)
 
     def add(self, val):
         cur = self.arr[self.idx]
@@ -129,14 +198,17 @@ class _AtSetter:
 
 class ndarray:
     __array_priority__ = 2000
-    __slots__ = ("_v",)
+    __slots__ = ("_v", "_dt")
 
-    def __init__(self, v):
+    def __init__(self, v, dt=None):
         if isinstance(v, ndarray):
+            if dt is None:
+                dt = v._dt
             v = v._v
         if not (isinstance(v, _np.ndarray) and v.dtype == object):
             v = _obj(v)
         self._v = v
+        self._dt = dt
 
     # ---- structure
     @property
@@ -153,11 +225,11 @@ class ndarray:
 
     @property
     def dtype(self):
-        return _np.dtype("complex128")
+        return _np.dtype({"b": "bool", "i": "int64", "f": "float64"}.get(self._dt, "complex128"))
 
     @property
     def T(self):
-        return ndarray(self._v.T)
+        return ndarray(self._v.T, self._dt)
 
     @property
     def at(self):
@@ -182,20 +254,20 @@ class ndarray:
         if isinstance(shape, (int, _np.integer, SC)):
             shape = (shape,)
         shape = tuple(int(s) for s in shape)
-        return ndarray(self._v.reshape(shape))
+        return ndarray(self._v.reshape(shape), self._dt)
 
     def transpose(self, *axes):
         if len(axes) == 1 and (isinstance(axes[0], (list, tuple)) or axes[0] is None):
             axes = axes[0]
         if not axes:
-            return ndarray(self._v.T)
-        return ndarray(self._v.transpose(tuple(int(a) for a in axes)))
+            return ndarray(self._v.T, self._dt)
+        return ndarray(self._v.transpose(tuple(int(a) for a in axes)), self._dt)
 
     def flatten(self):
-        return ndarray(self._v.flatten())
+        return ndarray(self._v.flatten(), self._dt)
 
     def ravel(self):
-        return ndarray(self._v.ravel().copy())
+        return ndarray(self._v.ravel().copy(), self._dt)
 
     def item(self, *a):
         if a:
@@ -203,23 +275,26 @@ class ndarray:
         return self._v.item()
 
     def copy(self):
-        return ndarray(self._v.copy())
+        return ndarray(self._v.copy(), self._dt)
 
     def astype(self, dt):
-        return self
+        k = _kind_from_dtype(dt)
+        if k is None:
+            return ndarray(self._v, None)
+        return ndarray(_narrow(self._v, k), k)
 
     def tolist(self):
         return self._v.tolist()
 
     def squeeze(self, axis=None):
-        return ndarray(self._v.squeeze(axis))
+        return ndarray(self._v.squeeze(axis), self._dt)
 
     def __getitem__(self, idx):
         idx = tuple(_fix_index(i) for i in idx) if isinstance(idx, tuple) else _fix_index(idx)
         r = self._v[idx]
         if isinstance(r, _np.ndarray):
-            return ndarray(r)
-        return ndarray(_wrap0(r))
+            return ndarray(r, self._dt)
+        return ndarray(_wrap0(r), self._dt)
 
     def __setitem__(self, idx, val):
         raise TypeError("JAX arrays are immutable; use .at[].set()")
@@ -253,10 +328,11 @@ class ndarray:
         raise TypeError("unhashable type: jax array")
 
     # ---- arithmetic
-    def _bin(self, o, f):
+    def _bin(self, o, f, div=False):
         if isinstance(o, (str, bytes, dict)) or o is None:
             return NotImplemented
-        return ndarray(_asobj(f(self._v, _obj(o))))
+        k = _prom(self._dt, _kind_of(o))
+        return ndarray(_asobj(f(self._v, _obj(o))), _floatish(k) if div else k)
 
     def __add__(self, o):
         return self._bin(o, lambda a, b: a + b)
@@ -275,13 +351,13 @@ class ndarray:
     __rmul__ = __mul__
 
     def __truediv__(self, o):
-        return self._bin(o, lambda a, b: a / b)
+        return self._bin(o, lambda a, b: a / b, div=True)
 
     def __rtruediv__(self, o):
-        return self._bin(o, lambda a, b: b / a)
+        return self._bin(o, lambda a, b: b / a, div=True)
 
     def __neg__(self):
-        return ndarray(_asobj(-self._v))
+        return ndarray(_asobj(-self._v), self._dt)
 
     def __pos__(self):
         return self
@@ -346,11 +422,11 @@ class ndarray:
 
     @property
     def real(self):
-        return ndarray(_asobj(_np.frompyfunc(lambda a: a.real, 1, 1)(self._v)))
+        return ndarray(_asobj(_np.frompyfunc(lambda a: a.real, 1, 1)(self._v)), "f" if self._dt in (None, "c") else self._dt)
 
     @property
     def imag(self):
-        return ndarray(_asobj(_np.frompyfunc(lambda a: a.imag, 1, 1)(self._v)))
+        return ndarray(_asobj(_np.frompyfunc(lambda a: a.imag, 1, 1)(self._v)), "f" if self._dt in (None, "c") else self._dt)
 
     def sum(self, axis=None):
         return sum(self, axis)
@@ -414,12 +490,18 @@ def _bor(a, b):
 # ---- construction -----------------------------------------------------------
 
 
+def _with_dtype(a, dtype):
+    if dtype is None:
+        return a
+    return a.astype(dtype)
+
+
 def asarray(x, dtype=None):
-    return x if isinstance(x, ndarray) else ndarray(_obj(x))
+    return _with_dtype(x if isinstance(x, ndarray) else ndarray(_obj(x), _kind_of(x)), dtype)
 
 
 def array(x, dtype=None, copy=True):
-    return ndarray(_obj(x).copy())
+    return _with_dtype(ndarray(_obj(x).copy(), _kind_of(x)), dtype)
 
 
 def zeros(shape, dtype=None):
@@ -427,17 +509,42 @@ def zeros(shape, dtype=None):
         shape = (shape,)
     out = _np.empty(tuple(int(s) for s in shape), dtype=object)
     out.fill(_SC0)
-    return ndarray(out)
+    return ndarray(out, "f" if dtype is None else _kind_from_dtype(dtype))
 
 
 def ones(shape, dtype=None):
-    z = zeros(shape)
+    z = zeros(shape, dtype)
     z._v.fill(_SC1)
     return z
 
 
 def zeros_like(a, dtype=None):
-    return zeros(asarray(a).shape)
+    a = asarray(a)
+    z = zeros(a.shape)
+    z._dt = a._dt if dtype is None else _kind_from_dtype(dtype)
+    return z
+
+
+def promote_types(a, b):
+    return _np.promote_types(a, b)
+
+
+def result_type(*xs):
+    k = _prom(*[_kind_of(x) if not isinstance(x, (type, _np.dtype)) else _kind_from_dtype(x) for x in xs])
+    return _np.dtype({"b": "bool", "i": "int64", "f": "float64"}.get(k, "complex128"))
+
+
+def iscomplexobj(x):
+    return _kind_of(x) in (None, "c")
+
+
+def isrealobj(x):
+    return not iscomplexobj(x)
+
+
+float_ = _np.float64
+complex_ = _np.complex128
+int_ = _np.int64
 
 
 def eye(N, M=None, dtype=None):
@@ -446,11 +553,11 @@ def eye(N, M=None, dtype=None):
     out = zeros((N, M))._v
     for i in range(builtins.min(N, M)):
         out[i, i] = _SC1
-    return ndarray(out)
+    return ndarray(out, "f" if dtype is None else _kind_from_dtype(dtype))
 
 
 def identity(n, dtype=None):
-    return eye(n)
+    return eye(n, dtype=dtype)
 
 
 def arange(*a, dtype=None):
@@ -459,7 +566,7 @@ def arange(*a, dtype=None):
     out = _np.empty((len(vals),), dtype=object)
     for i, x in enumerate(vals):
         out[i] = x
-    return ndarray(out)
+    return ndarray(out, "i" if dtype is None else _kind_from_dtype(dtype))
 
 
 def reshape(a, shape):
@@ -477,19 +584,27 @@ def ravel(a):
 # ---- elementwise ---------------------------------------------------------------
 
 
-def _map(f, a):
-    return ndarray(_asobj(_np.frompyfunc(f, 1, 1)(_obj(a))))
+def _map(f, a, kind=None):
+    """kind: None -> not tracked; "same" -> kind of the argument; "float" -> at least float; "real" -> complex becomes float"""
+    k = None
+    if kind is not None:
+        k = _kind_of(a)
+        if kind == "float":
+            k = _floatish(k)
+        elif kind == "real":
+            k = "f" if k in (None, "c") else k
+    return ndarray(_asobj(_np.frompyfunc(f, 1, 1)(_obj(a))), k)
 
 
 def conj(a):
-    return _map(lambda x: x.conj(), a)
+    return _map(lambda x: x.conj(), a, "same")
 
 
 conjugate = conj
 
 
 def abs_(a):
-    return _map(lambda x: builtins.abs(x), a)
+    return _map(lambda x: builtins.abs(x), a, "real")
 
 
 abs = abs_
@@ -505,11 +620,11 @@ def imag(a):
 
 
 def sqrt(a):
-    return _map(core.sc_sqrt, a)
+    return _map(core.sc_sqrt, a, "float")
 
 
 def square(a):
-    return _map(lambda x: x * x, a)
+    return _map(lambda x: x * x, a, "same")
 
 
 def add(a, b):
@@ -610,28 +725,30 @@ def angle(a):
 
 
 def moveaxis(a, source, destination):
-    return ndarray(_np.moveaxis(_obj(a), source, destination))
+    return ndarray(_np.moveaxis(_obj(a), source, destination), _kind_of(a))
 
 
 def swapaxes(a, a1, a2):
-    return ndarray(_np.swapaxes(_obj(a), a1, a2))
+    return ndarray(_np.swapaxes(_obj(a), a1, a2), _kind_of(a))
 
 
 def sum(a, axis=None):
     v = _obj(a)
     if isinstance(axis, (tuple, list)):
-        out = ndarray(v)
+        out = ndarray(v, _kind_of(a))
         for ax in sorted((int(x) % v.ndim for x in axis), reverse=True):
             out = sum(out, axis=ax)
         return out
+    k = _kind_of(a)
+    k = "i" if k == "b" else k
     if axis is None:
         acc = _SC0
         for x in v.flatten():
             acc = acc + x
-        return ndarray(_wrap0(acc))
+        return ndarray(_wrap0(acc), k)
     if v.size == 0:
         return zeros(tuple(d for i, d in enumerate(v.shape) if i != axis % v.ndim))
-    return ndarray(_asobj(_np.add.reduce(v, axis=int(axis))))
+    return ndarray(_asobj(_np.add.reduce(v, axis=int(axis))), k)
 
 
 def prod(a, axis=None):
@@ -648,7 +765,7 @@ def trace(a):
     acc = _SC0
     for i in range(builtins.min(v.shape)):
         acc = acc + v[i, i]
-    return ndarray(_wrap0(acc))
+    return ndarray(_wrap0(acc), _kind_of(a))
 
 
 def diag(a, k=0):
@@ -662,13 +779,13 @@ def diag(a, k=0):
                 out[i, i + k] = x
             else:
                 out[i - k, i] = x
-        return ndarray(out)
+        return ndarray(out, _kind_of(a))
     if v.ndim != 2:
         raise ValueError("diag requires 1-d or 2-d input")
     out = _np.empty((builtins.min(v.shape),), dtype=object)
     for i in range(builtins.min(v.shape)):
         out[i] = v[i, i]
-    return ndarray(out)
+    return ndarray(out, _kind_of(a))
 
 
 # ---- linear algebra ------------------------------------------------------------
@@ -678,12 +795,12 @@ def matmul(a, b):
     A, B = _obj(a), _obj(b)
     if A.ndim == 0 or B.ndim == 0:
         raise ValueError("matmul: scalar operand")
-    return ndarray(_asobj(_np.matmul(A, B)))
+    return ndarray(_asobj(_np.matmul(A, B)), _prom(_kind_of(a), _kind_of(b)))
 
 
 def dot(a, b):
     A, B = _obj(a), _obj(b)
-    return ndarray(_asobj(_np.dot(A, B)))
+    return ndarray(_asobj(_np.dot(A, B)), _prom(_kind_of(a), _kind_of(b)))
 
 
 def outer(a, b):
@@ -692,7 +809,7 @@ def outer(a, b):
     for i, x in enumerate(A):
         for j, y in enumerate(B):
             out[i, j] = x * y
-    return ndarray(out)
+    return ndarray(out, _prom(_kind_of(a), _kind_of(b)))
 
 
 def kron(a, b):
@@ -705,7 +822,7 @@ def kron(a, b):
         for i in range(A.shape[0]):
             for k in range(B.shape[0]):
                 out[i * B.shape[0] + k] = A[i] * B[k]
-        return ndarray(out)
+        return ndarray(out, _prom(_kind_of(a), _kind_of(b)))
     if nd != 2:
         raise Unsupported("kron of >2-d arrays")
     out = _np.empty((A.shape[0] * B.shape[0], A.shape[1] * B.shape[1]), dtype=object)
@@ -716,7 +833,7 @@ def kron(a, b):
             for k in range(B.shape[0]):
                 for l in range(B.shape[1]):
                     out[i * B.shape[0] + k, j * B.shape[1] + l] = _SC0 if xz else x * B[k, l]
-    return ndarray(out)
+    return ndarray(out, _prom(_kind_of(a), _kind_of(b)))
 
 
 def take(a, indices, axis=None):
@@ -736,28 +853,33 @@ def pad(a, pad_width, mode="constant", constant_values=0):
     out.fill(_lift(constant_values))
     sl = tuple(slice(p[0], p[0] + d) for d, p in zip(v.shape, pw))
     out[sl] = v
-    return ndarray(out)
+    return ndarray(out, _kind_of(a))
 
 
 def vstack(xs):
-    return ndarray(_np.vstack([_np.atleast_2d(_obj(x)) for x in xs]))
+    return ndarray(_np.vstack([_np.atleast_2d(_obj(x)) for x in xs]), _prom(*[_kind_of(x) for x in xs]))
 
 
 def hstack(xs):
-    return ndarray(_np.hstack([_obj(x) for x in xs]))
+    return ndarray(_np.hstack([_obj(x) for x in xs]), _prom(*[_kind_of(x) for x in xs]))
 
 
 def concatenate(xs, axis=0):
-    return ndarray(_np.concatenate([_obj(x) for x in xs], axis=axis))
+    return ndarray(_np.concatenate([_obj(x) for x in xs], axis=axis), _prom(*[_kind_of(x) for x in xs]))
 
 
 def stack(xs, axis=0):
-    return ndarray(_np.stack([_obj(x) for x in xs], axis=axis))
+    return ndarray(_np.stack([_obj(x) for x in xs], axis=axis), _prom(*[_kind_of(x) for x in xs]))
 
 
 def einsum(spec, *ops, **kw):
     """index-join implementation (operands are tiny and mostly sparse); checks operand rank/extent
     consistency so that a malformed generated spec is an error instead of silence"""
+    kind = _prom(*[_kind_of(o) for o in ops])
+    for name in kw:
+        if name not in ("preferred_element_type", "optimize", "precision"):
+            raise Unsupported(f"einsum keyword {name}")
+    pet = _kind_from_dtype(kw.get("preferred_element_type"))
     ops = [_obj(o) for o in ops]
     spec = spec.replace(" ", "")
     if "->" not in spec:
@@ -821,7 +943,9 @@ def einsum(spec, *ops, **kw):
         accs[k] = val if cur is None else cur + val
     for idx in _np.ndindex(res.shape):
         res[idx] = accs.get(idx, _SC0)
-    return ndarray(res)
+    if pet is not None:
+        return ndarray(_narrow(res, pet), pet)
+    return ndarray(res, kind)
 
 
 # ---- booleans / branching ---------------------------------------------------------
@@ -933,7 +1057,7 @@ def where(cond, x=None, y=None):
         out = _np.empty(c.shape, dtype=object)
         for idx in _np.ndindex(c.shape):
             out[idx] = X[idx] if bool(_tob(c[idx])) else Y[idx]
-        return ndarray(out)
+        return ndarray(out, _prom(_kind_of(x), _kind_of(y)))
     v = _obj(cond)
     b = _np.empty(v.shape, dtype=object)
     for idx in _np.ndindex(v.shape):
@@ -1158,24 +1282,31 @@ def round(a, decimals=0):
 
 
 def expand_dims(a, axis):
-    return ndarray(_np.expand_dims(_obj(a), axis))
+    return ndarray(_np.expand_dims(_obj(a), axis), _kind_of(a))
 
 
 def squeeze(a, axis=None):
-    return ndarray(_np.squeeze(_obj(a), axis))
+    return ndarray(_np.squeeze(_obj(a), axis), _kind_of(a))
 
 
 def tensordot(a, b, axes=2):
-    return ndarray(_asobj(_np.tensordot(_obj(a), _obj(b), axes=axes)))
+    return ndarray(_asobj(_np.tensordot(_obj(a), _obj(b), axes=axes)), _prom(_kind_of(a), _kind_of(b)))
 
 
 def ones_like(a, dtype=None):
-    return ones(asarray(a).shape)
+    z = zeros_like(a, dtype)
+    z._v.fill(_SC1)
+    return z
 
 
 def full(shape, fill_value, dtype=None):
     z = zeros(shape)
-    z._v.fill(_lift(fill_value))
+    k = _kind_of(fill_value) if dtype is None else _kind_from_dtype(dtype)
+    x = _lift(fill_value)
+    if k in ("f", "i", "b") and isinstance(x, SC) and x.im.t:
+        x = x.real
+    z._v.fill(x)
+    z._dt = k
     return z
 
 
